@@ -1,8 +1,9 @@
 (* C13 — Chunk, Windowed and Pairs partition a slice exactly.
    Statements only; every proof is [exact] of a lemma from
    Slices/PartitionProofs.v. Quantifiers: every element type, every list,
-   every size >= 1 (no bound). *)
-From Typ Require Import Lib.Base Slices.Partition Slices.PartitionProofs.
+   every size >= 1 (no bound). Sizes < 1 are outside the property: no theorem
+   covers them and the correspondence check rejects them (see the last Example). *)
+From Typ Require Import Lib.Base Slices.Partition Slices.PartitionCheck Slices.PartitionProofs.
 
 (* ceil(n/size) *)
 Theorem C13_cdiv_is_ceiling : forall n size, 1 <= size ->
@@ -41,7 +42,13 @@ Theorem C13_windowed : forall (A : Type) (l : list A) (size : nat),
 Proof. exact @windowed_correct. Qed.
 Print Assumptions C13_windowed.
 
-(* n-size+1 windows, window i = l[i : i+size]; none when n < size (by definition of windowed_ref) *)
+(* none when n < size *)
+Theorem C13_windowed_none : forall (A : Type) (l : list A) (size : nat), length l < size ->
+  windowed l size = Ok [] /\ windowedfunc l size = Ok [].
+Proof. exact @windowed_none. Qed.
+Print Assumptions C13_windowed_none.
+
+(* n-size+1 windows, window i = l[i : i+size] *)
 Theorem C13_windowed_windows : forall (A : Type) (l : list A) (size : nat), size <= length l ->
   length (windowed_ref l size) = length l - size + 1 /\
   forall i, i < length l - size + 1 ->
@@ -73,8 +80,42 @@ Proof.
 Qed.
 Print Assumptions C13_func_variants.
 
+(* size > n: one chunk holding the whole input (none for the empty input) *)
+Theorem C13_chunk_size_above_n : forall (A : Type) (l : list A) (size : nat), length l < size ->
+  chunk l size = Ok (match l with [] => [] | _ :: _ => [l] end) /\
+  chunkfunc l size = Ok (match l with [] => [] | _ :: _ => [l] end).
+Proof. exact @chunk_size_above. Qed.
+Print Assumptions C13_chunk_size_above_n.
+
+(* Correspondence check only: replacing a size above n by n + 1 (what run_case does, so that a size
+   like 2^63-1 is never built as a unary nat) does not change any model result. *)
+Theorem C13_clamp_size : forall (A : Type) (l : list A) (z : Z),
+  chunk l (Z.to_nat z) = chunk l (clamp_size l z) /\ chunkfunc l (Z.to_nat z) = chunkfunc l (clamp_size l z) /\
+  windowed l (Z.to_nat z) = windowed l (clamp_size l z) /\ windowedfunc l (Z.to_nat z) = windowedfunc l (clamp_size l z).
+Proof. exact @clamp_size_sound. Qed.
+Print Assumptions C13_clamp_size.
+
 (* Non-vacuity: the remainder case and size > n, evaluated. *)
 Example C13_example :
   chunk [1;2;3;4;5]%Z 3 = Ok [[1;2;3];[4;5]]%Z /\ chunk [1;2]%Z 5 = Ok [[1;2]]%Z /\
   windowed [1;2;3;4]%Z 2 = Ok [[1;2];[2;3];[3;4]]%Z /\ pairs [1;2;3]%Z 0%Z = Ok [(1,2);(2,3)]%Z.
+Proof. vm_compute. repeat split. Qed.
+
+(* size > n and n < size instances of the two theorems above; the size of a MaxInt case is clamped *)
+Example C13_example_size_above :
+  windowed [1;2]%Z 3 = Ok [] /\ windowedfunc [1;2]%Z 3 = Ok [] /\
+  chunk [1;2]%Z 3 = Ok [[1;2]]%Z /\ chunkfunc (@nil Z) 3 = Ok [] /\
+  clamp_size [1;2]%Z 9223372036854775807%Z = 3.
+Proof. vm_compute. repeat split. Qed.
+
+(* Outside the property (size < 1): the model's size-0 branches as transcribed (no theorem uses them, and
+   they are not compared with Go: the harness only counts whether Go agreed), and check_case rejects every
+   case with a size below 1 whatever was observed. *)
+Example C13_example_size_below_1 :
+  chunk [1;2]%Z 0 = Panic DivByZero /\ chunk (@nil Z) 0 = Ok [] /\ windowed [1;2]%Z 0 = Ok [[];[];[]] /\
+  check_case (Case FWindowed [1;2;3]%Z (-1)%Z (Ok [[];[];[];[]])) = false /\
+  check_case (Case FWindowed [1;2;3]%Z (-1)%Z (Panic IndexOutOfRange)) = false /\
+  check_case (Case FChunk [1;2]%Z 0%Z (Panic DivByZero)) = false /\
+  check_case (Case FWindowed [1;2]%Z 0%Z (Ok [[];[];[]])) = false /\
+  check_case (Case FWindowed [1;2]%Z 1%Z (Ok [[1];[2]]%Z)) = true.
 Proof. vm_compute. repeat split. Qed.
